@@ -37,7 +37,7 @@ TARGETED = [
     "x = 'abc' \"def", "x = b'é'", "x = '\\N{bogus}'", "x = 'a' b'b'", "x = b'\\xzz'", "x = u'\\u12'", "x = f'{a'", "x = f'{}'", "x = f'{a!z}'", "x = f'{a!}'", "x = f'{a:{b}'", "x = f'{=}'", "x = f'{a b}'", "x = f'{a!r:}}'",
     "type X = ", "type X[T = 1", "def f[T(): pass", "class A[]: pass", "type = = 1",
     "  x = 1", "if a:\n  b\n c", "if a:\n    b\n  c\n", "def f():\n\tx\n        y\n   z", "x = 1\n  y = 2", "if a:\nb",
-    "f!(a, (b]", "f!((]", "$(ls", "$[ls )", "![ls", "${a", "$(echo @(a b))", "@(a)", "x = $", "x = $ a", "with! a\n  b", "with a as $: pass", "a && = b", "a || ", "p'a' = 1", "x = `a", "echo 'a", "x??? ", "$(ls) = 1", "for $(a) in b: pass", "del $X?",
+    "f!(a, (b]", "f!((]", "f!(a, [1,\n   2)", "g!((x,\n y]", "h!(a,\n b,\n {c)", "r = k!([\n\n 1}\n)", "$(echo @(a,\n b]))", "x = [1,\n 2)", "x = {1:\n 2]", "f(a,\n b]", "$(ls", "$[ls )", "![ls", "${a", "$(echo @(a b))", "@(a)", "x = $", "x = $ a", "with! a\n  b", "with a as $: pass", "a && = b", "a || ", "p'a' = 1", "x = `a", "echo 'a", "x??? ", "$(ls) = 1", "for $(a) in b: pass", "del $X?",
 ]
 VERSIONED = ["type X = 1", "def f[T](): pass", "class A[T]: pass", "try:\n  a\nexcept* B:\n  c", "type X[T] = list[T]", "def f[*Ts, **P](a): pass"]
 
